@@ -185,6 +185,11 @@ def who_may_construct(ctx, crate):
         for c, bb in crate.callers().get(m, []): callers.add(c)
     ctx.report(clause, "BMOC:constructor-callers", bool(callers) and callers <= finalisers, "create_unsafe(_copying) is called from %s" % sorted(callers), kind="N",
                sample={"constructor_callers": sorted(callers)})
+    # raw values are relative to the depth_max of the BMOC they were read from: re-emitting one
+    # verbatim is only legitimate where source and result share depth_max, i.e. in `not`
+    raw = M + "BMOCBuilderUnsafe::push_raw_unsafe"
+    rc = sorted({c for c, bb in crate.callers().get(raw, [])})
+    ctx.report(clause, "push_raw_unsafe:callers", set(rc) <= {M + "BMOC::not"}, "push_raw_unsafe (verbatim copy of a raw value) is called from %s; binary operators build results at max(depth_max) and must re-encode" % rc, kind="N")
     # no store to a field of a BMOC after construction
     idx = crate.field_index("nested::bmoc::BMOC", "entries")
     bad = []
